@@ -404,6 +404,32 @@ def witness_D42(tree):
 FINDING_WITNESS = {"D42": witness_D42}
 
 
+def unit_bounded_terminators(eng=None):
+    """what ends a statement is spelling: every kind of statement followed by nothing, a blank, a tab, a comment (attached or after blanks, empty,
+    with further ';' inside), a line break - all spellings assemble identically (bounded stand-in for the statement scanners of the parser)"""
+    stmts = ["mov r0, r1", "nop", "1, 2", "100.", "177777", ".word 1", ".word", "lab:", "x = 5", "x == 5", ".ascii \"a\"", ".ascii /a/", "br .", "v", "v, 1", "clr (r1)+", "mov #1, @#100", ".byte 1, 2", ".even",
+             ".blkb 2", "lab2: nop", ".repeat 2 { nop }", "jsr pc, @(r1)+", "emt 10", "'a", "\"ab", ".word ^Rabc", "<1+2>*3", "rts pc", ".rad50 /ab/", "ldf (r0), ac1", "0x1f", "1$: sob r0, 1$"]
+    terms = ["", " ", "\t", ";c", " ;c", "\t; c ; d", ";", " ; ", ";;", " ;'\"<", "\n", " \n\n", ";c\n;d\n"]
+    jobs = []
+    for st in stmts:
+        for t in terms:
+            jobs.append({"kind": "asm", "sources": ["v = 7\n" + st + t + "\nhalt\n"]})
+    res = driver.native(jobs, driver.tree_root())
+    bad = []
+    for i, st in enumerate(stmts):
+        ref = res[i * len(terms)]
+        for j, t in enumerate(terms):
+            r = res[i * len(terms) + j]
+            if (r["status"], r.get("code_hex")) != (ref["status"], ref.get("code_hex")) or r["status"] == "crash":
+                bad.append((st, t, [ref["status"], ref.get("code_hex")], [r["status"], r.get("code_hex"), [d[1] for d in r.get("diags", [])][:2]]))
+        if ref["status"] != "ok":
+            bad.append((st, "", "the reference spelling itself does not assemble", [d[1] for d in ref.get("diags", [])][:2]))
+    ob = dict(label="every-statement-kind-assembles-identically-whatever-ends-it(blank, tab, attached / detached / empty / nested comment, line break)", kind="bounded",
+              status="proved" if jobs and not bad else "failed", secs=0.0, path=[], witness=None, detail=str(bad[:4]), events=[], smt2=None, backend="cpython-native", unit="bounded-terminators",
+              func="parser statement scanners (bounded stand-in)", bound="%d statement kinds x %d terminators" % (len(stmts), len(terms)), cases=len(jobs), cfg=dict(kind="bounded"))
+    return dict(unit="bounded-terminators", func="parser statement scanners (bounded stand-in)", paths=len(jobs), obligations=[ob], wall=0.0)
+
+
 # ------------------------------------------------------------------ rac: structured respelling
 def gen_pair(rnd):
     """one program in two spellings that must assemble identically"""
@@ -415,7 +441,7 @@ def gen_pair(rnd):
     for i in range(rnd.randrange(3, 10)):
         k = rnd.random()
         ws = rnd.choice([" ", "  ", "\t", " \t "])
-        cm = rnd.choice(["", " ; comment", "\t;x ; y"])
+        cm = rnd.choice(["", " ; comment", "\t;x ; y", ";attached", "; two; of them", ";"])
         blank = rnd.choice(["", "\n", "\n; only a comment\n"])
         if k < 0.35:
             r1, r2 = rnd.choice(regs), rnd.choice(regs)
@@ -507,6 +533,7 @@ def units(tier):
     for k in compiler_c.DISPATCH_KINDS:
         us.append(("dispatch[%s]" % k, "unit_dispatch", dict(kind=k)))
     us.append(("bounded-grouping", "unit_bounded_grouping", {}))
+    us.append(("bounded-terminators", "unit_bounded_terminators", {}))
     return us
 
 
